@@ -51,6 +51,15 @@ def _gen_circuit(rng, clifford=False, qudit=False):
             ops.append(cirq.measure(*mq, key=key, **kw))
             keys_used.append((key, shape))
             continue
+        if not qudit and not clifford and kind < 0.42 and n >= 1:
+            # Pauli-product (parity) measurement: projects without factorising the measured qubits
+            pq = rng.sample(qs, rng.randrange(1, n + 1))
+            ps = cirq.PauliString({x: rng.choice([cirq.X, cirq.Y, cirq.Z]) for x in pq}) * rng.choice([1, -1])
+            prev = [s_ for k, s_ in keys_used if k == "p"]
+            if not prev or prev[0] == (2,):
+                ops.append(cirq.measure_single_paulistring(ps, key="p"))
+                keys_used.append(("p", (2,)))
+            continue
         if qudit:
             d = q[0].dimension
             g = cirq.MatrixGate(np.roll(np.eye(d), 1, axis=0), qid_shape=(d,)) if rng.random() < 0.5 else cirq.MatrixGate(
@@ -132,4 +141,51 @@ def standin_born(tier, seed):
                       "mid-circuit and terminal measurements) x 4 simulators; all branches enumerated through a scripted random source",
                 cases=cases, distinct=len(distinct), failures=len(fails), exhaustive=False, _fails=fails[:3])
 standin_born.prop = "C02"
-STANDINS = [standin_born]
+
+
+def standin_born_scenarios(tier, seed):
+    """Exhaustive template space: entangling preparation x (Pauli-product | plain | repeated-key) measurement x follow-up."""
+    import itertools
+    import cirq
+
+    a, b, c = cirq.LineQubit.range(3)
+    preps = {"product": [cirq.H(a), cirq.X(b) ** 0.5], "bell": [cirq.H(a), cirq.CNOT(a, b)], "ghz": [cirq.H(a), cirq.CNOT(a, b), cirq.CNOT(b, c)],
+             "bell+T": [cirq.H(a), cirq.CNOT(a, b), cirq.T(b), cirq.H(b)]}
+    mids = {
+        "ZZ": [cirq.measure_single_paulistring(cirq.Z(a) * cirq.Z(b), key="p")], "XX": [cirq.measure_single_paulistring(cirq.X(a) * cirq.X(b), key="p")],
+        "-YZ": [cirq.measure_single_paulistring(-1 * cirq.Y(a) * cirq.Z(c), key="p")], "XZX": [cirq.measure_single_paulistring(cirq.X(a) * cirq.Z(b) * cirq.X(c), key="p")],
+        "Za": [cirq.measure_single_paulistring(cirq.Z(a), key="p")], "m(a)": [cirq.measure(a, key="p")], "m(b,a) inv": [cirq.measure(b, a, key="p", invert_mask=(True, False))],
+        "m(a);m(a)": [cirq.measure(a, key="p"), cirq.H(a), cirq.measure(a, key="p")],
+        "XX;ZZ;XX": [cirq.measure_single_paulistring(cirq.X(a) * cirq.X(b), key="p"), cirq.measure_single_paulistring(cirq.Z(a) * cirq.Z(b), key="p"),
+                     cirq.measure_single_paulistring(cirq.X(a) * cirq.X(b), key="p")],
+    }
+    posts = {"measure all": [cirq.measure(a, b, c, key="m")], "feed-forward": [cirq.X(c).with_classical_controls("p"), cirq.measure(c, b, key="m")],
+             "cnot then measure": [cirq.CNOT(b, a), cirq.H(b), cirq.measure(a, b, key="m")], "reset": [cirq.reset(a), cirq.measure(a, b, key="m")]}
+    sims = [("Simulator", lambda s: cirq.Simulator(seed=s)), ("Simulator(split_untangled_states=False)", lambda s: cirq.Simulator(seed=s, split_untangled_states=False)),
+            ("DensityMatrixSimulator", lambda s: cirq.DensityMatrixSimulator(seed=s)),
+            ("DensityMatrixSimulator(split_untangled_states=False)", lambda s: cirq.DensityMatrixSimulator(seed=s, split_untangled_states=False))]
+    cases, fails, distinct = 0, [], set()
+    for (pn, P), (mn, M), (qn, Q) in itertools.product(preps.items(), mids.items(), posts.items()):
+        circ = cirq.Circuit(P, M, Q)
+        qs = [a, b, c]
+        want = refsim.ref_distribution(circ, qs)
+        for name, mk in sims:
+            got = {}
+            for p_, rec in enumerate_branches(lambda r: _canon_records(mk(r).run(circ, repetitions=1))):
+                got[rec] = got.get(rec, 0.0) + p_
+            cases += 1
+            distinct.add((name, pn, mn, qn))
+            if not refsim.dist_close(got, want, atol=1e-5):
+                bad = [k for k in set(got) | set(want) if abs(got.get(k, 0) - want.get(k, 0)) > 1e-5][:2]
+                fails.append(dict(args=dict(simulator=name, scenario=f"prep={pn} measure={mn} then={qn}", circuit=repr(circ)), failed="distribution",
+                                  clause=f"{name}: exact distribution of records differs from the Born rule, e.g. "
+                                         f"{[(k, round(got.get(k, 0), 5), round(want.get(k, 0), 5)) for k in bad]} (got, expected)"))
+                if len(fails) >= 3:
+                    break
+        if len(fails) >= 3:
+            break
+    return dict(function=F + "/{sparse_simulator,density_matrix_simulator}[structured measurement scenarios]", case="born-scenarios",
+                bound="exhaustive product of 4 preparations x 9 measurement blocks (Pauli-product, inverted, repeated key) x 4 follow-ups on 3 qubits x 4 simulator configurations",
+                cases=cases, distinct=len(distinct), failures=len(fails), exhaustive=True, _fails=fails[:3])
+standin_born_scenarios.prop = "C02"
+STANDINS = [standin_born, standin_born_scenarios]
